@@ -931,6 +931,7 @@ func (x *Exec) rangeNext(st *State, fr *Frame, in *ssa.Next) Val {
 		if vo, has := it.Data["visited"]; has {
 			obj := int(mustLit(vo.(T)))
 			if vis, isT := st.Heap[obj].(T); isT {
+				x.e.note("a range over a map yields every key at most once (ghost set visited(m, k))")
 				st.assume(Implies(ok, T{S: fmt.Sprintf("(not (select %s %s))", vis.S, kterm.S), So: SBool}), "range yields every key at most once")
 				st.Heap[obj] = T{S: fmt.Sprintf("(ite %s (store %s %s true) %s)", ok.S, vis.S, kterm.S, vis.S), So: vis.So}
 				if st.Written != nil {
